@@ -185,6 +185,11 @@ def c12():
     # keys as numpy hands them out (np.int64 list positions, np.str_ names): a round trip must not turn them into other objects
     v = me.run("C12", "model_checking", "", [dict(universe="U2", variant="xfer", depth=2 if _q() else 3, emitidx=False)], tags=["C12"], keys=("numpy",), modes=modes[:1],
                hashseeds=(0,), queries=False, finish=False, loops=("pickle_copy", "pickle_orig"), nloops=2, verdict=v)
+    # a linear knob whose remembered source value lags behind its source (an update cut short before the knob ran) when the manager is pickled: universe U8 with
+    # faults, extras and transfers together, a pickle round trip inserted before every edge
+    v = me.run("C12", "model_checking", "", [dict(universe="U8", variant="xfer_all", depth=4 if _q() else 6, emitidx=False)], tags=["C12"], modes=modes[:1],
+               hashseeds=(0,), queries=False, finish=False, loops=("pickle_copy", "pickle_orig"), nloops=2, verdict=v)
+    v.cov["rule"] += " || task memory: universe U8 (a linear knob, faults + extras + transfers, 4-6 calls): the knob's remembered source value travels through the round trip as it is"
     # the manager's default container (mgr.ref() without a container: xdeps.utils.AttrDict, attributes and items are one storage): locations assigned through
     # attribute references are read back as items and vice versa, on both sides of every round trip
     v = me.run("C12", "model_checking", "", [dict(universe="U3", variant="xfer", depth=2 if _q() else 3, emitidx=False)], tags=["C12"], keys=("attrdict",), modes=modes[:1],
